@@ -400,6 +400,7 @@ def check_pair(ctx, rc, ent, requests):
     if nontrivial:
         ctx.count('pairs_with_matches')
         count_rule(ctx, rule, 'hit')
+        ent['matched_by'] = id(rc)
     applied = [RU.apply_declared(rule, g, f) for f in ms]
     inappl = [(k, a) for k, a in enumerate(applied) if a[0] != 'ok']
     if inappl:
@@ -483,6 +484,112 @@ def check_implicit(ctx, rc, ent):
     if a != b:
         ctx.violation('the products depend on whether the hydrogens of the reactant are written out', {'rule': rc.rule, 'text': rc.text, 'molecule': ent['name']},
                       expected=a if a[0] == 'exc' else a[1][:6], observed=b if b[0] == 'exc' else b[1][:6])
+
+
+def run_sets(rq, mol):
+    """RunReactants on a molecule object as given -> ('ok', product sets as sorted canonical-SMILES lists, in the order
+    returned) | ('exc', class)"""
+    try:
+        prods = rq.RunReactants(mol)
+        return ('ok', [sorted(set_smiles(*mini_extract(ps))) for ps in prods])
+    except Exception as e:
+        return ('exc', common.exc_class(e, exc_tables()[1]))
+
+
+def hydrogen_forms(rng, mol):
+    """Other presentations of the same molecule graph as an RDKit object, besides 'all hydrogens implicit' and 'all hydrogens
+    atoms': SOME hydrogens written out as atoms (AddHs on a proper subset of the atoms that bear hydrogens), the same with
+    the written-out hydrogens isotope-labelled (a deuterated species: [2H]C), and the text with its bracket hydrogens kept
+    (removeHs=False).  Returns [(form name, molecule object)]."""
+    Chem = rd()
+    out = []
+    bearing = [a.GetIdx() for a in mol.GetAtoms() if a.GetTotalNumHs() > 0 and a.GetAtomicNum() != 1]
+    total_h = sum(mol.GetAtomWithIdx(i).GetTotalNumHs() for i in bearing)
+    if total_h >= 2 and bearing:
+        if len(bearing) >= 2:
+            sub = rng.sample(bearing, rng.randint(1, len(bearing) - 1))
+            try:
+                out.append(('partly-explicit-H', Chem.AddHs(mol, onlyOnAtoms=sorted(sub))))
+            except Exception:
+                pass
+        # one single hydrogen written out (and labelled): the other hydrogens of the same atom stay implicit
+        try:
+            rw = Chem.RWMol(mol)
+            i = rng.choice(bearing)
+            a = rw.GetAtomWithIdx(i)
+            if a.GetNumExplicitHs() > 0:
+                a.SetNumExplicitHs(a.GetNumExplicitHs() - 1)
+            h = Chem.Atom(1)
+            label = rng.choice([0, 2, 3])
+            h.SetIsotope(label)
+            j = rw.AddAtom(h)
+            rw.AddBond(i, j, Chem.BondType.SINGLE)
+            m2 = rw.GetMol()
+            Chem.SanitizeMol(m2)
+            if Chem.AddHs(m2).GetNumAtoms() == Chem.AddHs(mol).GetNumAtoms():
+                out.append(('one-H-atom%s' % ('-isotope-%d' % label if label else ''), m2))
+        except Exception:
+            pass
+    return out
+
+
+def check_forms(ctx, rc, ent):
+    """The product sets are a function of the molecule graph: a reactant object with only some of its hydrogens written out
+    as atoms gives the product sets (as a multiset: the atom order differs) of the fully explicit one."""
+    Chem = rd()
+    ref = run_sets(rc.rq, Chem.Mol(ent['H']))
+    for form, obj in hydrogen_forms(ctx.rng, ent['mol']):
+        compare_form(ctx, rc, ent['name'], form, obj, ref)
+
+
+def compare_form(ctx, rc, name, form, obj, ref=None):
+    Chem = rd()
+    if ref is None:
+        ref = run_sets(rc.rq, Chem.AddHs(obj))
+    got = run_sets(rc.rq, Chem.Mol(obj))
+    if any('->' in x or '<-' in x for r in (ref, got) if r[0] == 'ok' for ps in r[1] for x in ps):
+        # a dative bond has a direction, and RDKit's canonical SMILES of a symmetric species depends on it (seen: [H]N1[C]N->1[H] /
+        # [H]N1[C]N<-1[H] for the two orientations): the observable is not an invariant there (A-canon), the case is not judged
+        ctx.count('hydrogen_form_not_judged_dative_bond')
+        return True
+    ctx.count('hydrogen_form_checks')
+    ctx.count('hydrogen_form_' + form.split('-isotope')[0])
+    a = ref if ref[0] == 'exc' else ('ok', sorted(ref[1]))
+    b = got if got[0] == 'exc' else ('ok', sorted(got[1]))
+    if a != b:
+        ctx.violation('the products depend on which hydrogens of the reactant object are written out as atoms',
+                      {'rule': rc.rule, 'text': rc.text, 'molecule': name, 'form': form,
+                       'form_smiles': Chem.MolToSmiles(obj), 'form_molpkl': base64.b64encode(obj.ToBinary()).decode()},
+                      expected=a if a[0] == 'exc' else a[1][:6], observed=b if b[0] == 'exc' else b[1][:6])
+        return False
+    return True
+
+
+# companions for multi-component reactants: solvent / counter-ion / a second species / the adsorbent, none of them special
+COMPANIONS = ['O', '[Na+]', '[Cl-]', 'CC', 'C', '[H][H]', 'O=C=O', '[Pt]', 'N', 'CO', '[CH3]', 'c1ccccc1']
+
+
+def with_companion(ctx, pool, ent):
+    """the pool entry of the molecule object holding `ent`'s molecule and a companion species (before or after it, or a second
+    copy of itself) as ONE reactant object with several components"""
+    Chem, rng = rd(), ctx.rng
+    comp = rng.choice(COMPANIONS + ['self'])
+    other = ent['mol'] if comp == 'self' else Chem.MolFromSmiles(comp)
+    first = rng.random() < 0.5
+    name = ('%s . %s' if first else '%s . %s') % ((ent['name'], comp) if first else (comp, ent['name']))
+    if name in pool.by_name:
+        return pool.by_name[name]
+    try:
+        m = Chem.CombineMols(ent['mol'], other) if first else Chem.CombineMols(other, ent['mol'])
+        Chem.SanitizeMol(m)
+    except Exception:
+        return None
+    n0 = len(pool.entries)
+    e = pool.add(name, m)
+    if e is not None:
+        # not drawn by pick_mols: these entries are used only next to their parent
+        pool.entries[n0:] = []
+    return e
 
 
 def mini_extract(ps):
@@ -675,6 +782,60 @@ def run_apply_tie(ctx, pool):
             ctx.disagree('corr:c16.apply', inp, impl, r)
 
 
+# ---------------------------------------------------------------------------------------------- other interpreter modes
+def run_env_children(ctx, sample):
+    """a sample of (rule, molecule) pairs with matches again in child interpreters started with -O and with -W error
+    (harness/lib_envchild.py): reading must end the same way and the product sets must be those of this process (which
+    the clauses above have checked against the declared edits)"""
+    import subprocess
+    from . import lib_envchild as EC
+    Chem, rng = rd(), ctx.rng
+    # rules whose pattern carries prefixes / constraints / suffixes first (that is where checks live), then the others
+    def weight(t):
+        f = t[0].rule['frag']
+        return -sum(1 for it in f['items'] if it[0] == 'atom' and (it[1].get('prefix') or it[1]['chain'] or it[1].get('suffix'))) - len(f['molprefix'])
+    sample = sorted(sample, key=weight)[:ctx.n(500, 4000)]
+    if not sample or ctx.time_left() < 90:
+        ctx.count('env_children_not_run')
+        return
+    reqf = os.path.join(ctx.scratch, 'c16_env_requests.jsonl')
+    refs = []
+    with open(reqf, 'w') as f:
+        f.write(json.dumps({'op': 'hello'}) + '\n')
+        for rc, ent in sample:
+            refs.append(run_sets(rc.rq, Chem.Mol(ent['mol'])))
+            f.write(json.dumps({'op': 'rule', 'text': rc.text, 'molpkl': base64.b64encode(ent['mol'].ToBinary()).decode()}) + '\n')
+    modes = ['O', 'Werror'] + (['OO+hash'] if ctx.thorough() else [])
+    procs = [(mode, os.path.join(ctx.scratch, 'c16_env_%s.jsonl' % mode.replace('+', '_'))) for mode in modes]
+    procs = [(mode, outf, EC.spawn_batch(mode, reqf, outf)) for mode, outf in procs]
+    for mode, outf, p in procs:
+        try:
+            p.wait(timeout=max(60, ctx.time_left() - 30))
+        except subprocess.TimeoutExpired:
+            p.kill()
+            raise common.MachineryError('the %s child interpreter did not finish in time' % mode)
+        lines = [json.loads(l) for l in open(outf)]
+        if len(lines) != len(sample) + 1:
+            raise common.MachineryError('the %s child interpreter answered %d of %d requests (exit %r)' % (mode, len(lines), len(sample) + 1, p.returncode))
+        if lines[0].get('asserts') != (mode == 'Werror'):
+            raise common.MachineryError('child interpreter %s: assert statements %s' % (mode, lines[0].get('asserts')))
+        ctx.count('env_child_%s_pairs' % mode, len(sample))
+        bad = 0
+        for (rc, ent), ref, rep in zip(sample, refs, lines[1:]):
+            if 'childerror' in rep:
+                raise common.MachineryError('child interpreter (%s) failed: %s' % (mode, rep['childerror']))
+            got = ('read', rep['read']) if rep['read'] != 'ok' else (('exc', rep['products'][1]) if rep['products'][:1] == ['exc'] else ('ok', rep['products']))
+            if got != ref:
+                env = {'mode': mode, 'argv': EC.MODES[mode]['argv'], 'env': EC.MODES[mode]['env']}
+                ctx.violation('the product sets depend on the environment of the process (%s)' % json.dumps(env, sort_keys=True),
+                              {'rule': rc.rule, 'text': rc.text, 'molecule': ent['name'], 'env': env,
+                               'molpkl': base64.b64encode(ent['mol'].ToBinary()).decode()},
+                              expected=ref if ref[0] != 'ok' else ref[1][:6], observed=got if got[0] != 'ok' else got[1][:6])
+                bad += 1
+                if bad >= 3:
+                    break
+
+
 # ---------------------------------------------------------------------------------------------- run
 def merge_findings(ctx):
     p = os.path.join(common.VERIF, 'findings', 'C16.json')
@@ -724,6 +885,7 @@ def run(ctx):
     if pool.bad_graph:
         raise common.MachineryError('assumption A-graph failed: %r' % (pool.bad_graph[:3],))
     rcs, requests = [], []
+    env_sample = []
 
     def do_rule(rule, origin, k, layout=True):
         rc = RuleCase(ctx, rule, origin, layout)
@@ -744,6 +906,16 @@ def run(ctx):
             check_implicit(ctx, rc, e)
         if rc.pairs and rng.random() < 0.3:
             check_implicit(ctx, rc, rng.choice(rc.pairs))
+        matched = [e for e in rc.pairs if e.get('matched_by') == id(rc)]
+        if matched and rng.random() < 0.5:
+            check_forms(ctx, rc, rng.choice(matched))
+        if matched and rng.random() < 0.4:
+            e2 = with_companion(ctx, pool, rng.choice(sorted(matched, key=lambda e: len(e['g']['atoms']))[:3]))
+            if e2 is not None and len(e2['g']['atoms']) <= 40:
+                ctx.count('multi_component_reactants')
+                check_pair(ctx, rc, e2, requests)
+        if matched:
+            env_sample.append((rc, rng.choice(matched)))
         return rc
     # 1. designed rules
     for rule in RU.template_rules():
@@ -765,6 +937,7 @@ def run(ctx):
             do_rule(RU.unbalance(rng, rule), 'unbalanced_by_one_change', 2)
         if i % 4 == 1:
             do_rule(RU.rand_rule(rng, balanced=False), 'random_unbalanced', 2)
+    run_env_children(ctx, env_sample)
     run_model(ctx, rcs, requests)
     run_apply_tie(ctx, pool)
     reach_floor(ctx)
@@ -821,6 +994,27 @@ def replay(ctx, rec):
         rc.text = inp['text']
         rc.rq, rc.read = impl_read(rc.text)
     good = check_read(ctx, rc)
+    if good and rc.read == 'ok' and 'form_molpkl' in inp:
+        compare_form(ctx, rc, inp.get('molecule', '?'), inp['form'], Chem.Mol(base64.b64decode(inp['form_molpkl'])))
+        return len(ctx.violations) + sum(v['count'] for v in ctx.known_seen.values()) == before
+    if good and rc.read == 'ok' and 'env' in inp:
+        # the recorded environment is re-created: a child interpreter of that mode; the reference is this process, whose
+        # product sets are checked against the declared edits first
+        from . import lib_envchild as EC
+        mol = Chem.Mol(base64.b64decode(inp['molpkl']))
+        pool = Pool()
+        ent = pool.add(inp.get('molecule', '?'), mol)
+        if ent is not None:
+            check_pair(ctx, rc, ent, [])
+        ref = run_sets(rc.rq, Chem.Mol(mol))
+        child = EC.EnvChild(inp['env']['mode'])
+        rep = child.ask({'op': 'rule', 'text': rc.text, 'molpkl': inp['molpkl']})
+        child.close()
+        got = ('read', rep['read']) if rep['read'] != 'ok' else (('exc', rep['products'][1]) if rep['products'][:1] == ['exc'] else ('ok', rep['products']))
+        if got != ref:
+            ctx.violation('the product sets depend on the environment of the process (%s)' % json.dumps(inp['env'], sort_keys=True), inp,
+                          expected=ref if ref[0] != 'ok' else ref[1][:6], observed=got if got[0] != 'ok' else got[1][:6])
+        return len(ctx.violations) + sum(v['count'] for v in ctx.known_seen.values()) == before
     if good and rc.read == 'ok' and ('smiles' in inp or 'molpkl' in inp):
         pool = Pool()
         if 'molpkl' in inp:
